@@ -13,6 +13,7 @@ import LdkModel.Proofs.OutboundRetry
 import LdkModel.Proofs.OutboundProbe
 import LdkModel.Proofs.OutboundRestart
 import LdkModel.Proofs.OnchainFailed
+import LdkModel.Proofs.Unbroadcast
 namespace Ldk.C03
 open Ldk Ldk.OutboundPay
 
@@ -777,5 +778,107 @@ example : restartOutcome [1, 2] [mppClosedLive, mppOpen] = .pending ∧ restartO
     restartOutcome [1, 2] [mppClosedDust, { mppOpen with inMap := false }] = .failed := by decide
 
 end OnchainFailed
+
+/-! ### The LIVE twin of the reconstruction: what is queued to fail when a commitment transaction confirms (round 6)
+
+    `fail_unbroadcast_htlcs!` (chain/channelmonitor.rs) runs once when a commitment transaction is seen confirmed: every
+    outbound HTLC of the two unrevoked counterparty commitments that is not matched in the confirmed commitment is queued
+    as `HTLCUpdate { commitment_tx_output_idx: None }` and becomes `PaymentPathFailed` / `PaymentFailed` ANTI_REORG_DELAY
+    blocks later. `failUnbroadcast` is built from the expressions translated by tools/gen_unbroadcast.py. Quantified over
+    EVERY pair of candidate lists, every `counterparty_fulfilled_htlcs` set and every confirmed list. -/
+section Unbroadcast
+open Ldk.OnchainFailed Ldk.Unbroadcast
+
+/-- An outbound HTLC that has a NON-DUST OUTPUT in the confirmed commitment transaction is never queued to fail by the
+    confirmation (its fate is decided by who spends that output). -/
+theorem live_output_never_queued_to_fail_on_confirmation (cpCur cpPrev : List BHtlc) (fulfilled : List Nat)
+    (conf : List BHtlc) (s : Nat) (hin : ∃ b ∈ conf, b.src = some s ∧ b.outIdx.isSome = true) :
+    s ∉ failUnbroadcast cpCur cpPrev fulfilled conf := by
+  intro h
+  obtain ⟨c, _, hc⟩ := (mem_failUnbroadcast cpCur cpPrev fulfilled conf s).mp h
+  obtain ⟨_, hany, _⟩ := (checkOne_eq_some fulfilled conf c s).mp hc
+  obtain ⟨b, hb, hs, ho⟩ := hin
+  have : conf.any (matchedBy s c) = true := List.any_eq_true.mpr ⟨b, hb, matchedBy_same_source s c b hs ho⟩
+  rw [this] at hany
+  cases hany
+
+/-- the counterparty's previous commitment confirms: HTLC 1 (hash 11) has output 0 in it, HTLC 2 exists only in the
+    current counterparty commitment, HTLC 3 is dust in the confirmed one -/
+def fuCur : List BHtlc := [⟨some 1, some 0, 11, 9000⟩, ⟨some 2, some 1, 12, 5000⟩, ⟨some 3, none, 13, 100⟩]
+def fuConf : List BHtlc := [⟨some 1, some 0, 11, 9000⟩, ⟨none, some 2, 14, 7000⟩, ⟨some 3, none, 13, 100⟩]
+
+example : failUnbroadcast fuCur fuConf [] fuConf = [2, 3, 3] ∧ (∃ b ∈ fuConf, b.src = some 1 ∧ b.outIdx.isSome = true) := by
+  decide
+
+/-- Soundness: what the confirmation queues to fail is an HTLC of an unrevoked counterparty commitment that the
+    counterparty has not fulfilled off chain and that has NO non-dust output in the confirmed commitment (absent or dust). -/
+theorem queued_to_fail_on_confirmation_is_absent_or_dust (cpCur cpPrev : List BHtlc) (fulfilled : List Nat)
+    (conf : List BHtlc) (s : Nat) (h : s ∈ failUnbroadcast cpCur cpPrev fulfilled conf) :
+    s ∉ fulfilled ∧ (∃ c, (c ∈ cpCur ∨ c ∈ cpPrev) ∧ c.src = some s) ∧ ∀ b ∈ conf, b.src = some s → b.outIdx = none := by
+  obtain ⟨c, hcm, hc⟩ := (mem_failUnbroadcast cpCur cpPrev fulfilled conf s).mp h
+  obtain ⟨hs, hany, hf⟩ := (checkOne_eq_some fulfilled conf c s).mp hc
+  refine ⟨hf, ⟨c, hcm, hs⟩, ?_⟩
+  intro b hb hbs
+  cases ho : b.outIdx with
+  | none => rfl
+  | some i =>
+    have : conf.any (matchedBy s c) = true :=
+      List.any_eq_true.mpr ⟨b, hb, matchedBy_same_source s c b hbs (by simp [ho])⟩
+    rw [this] at hany
+    cases hany
+
+example : 3 ∈ failUnbroadcast fuCur fuConf [] fuConf := by decide
+
+/-- Completeness: an HTLC of an unrevoked counterparty commitment, not fulfilled off chain, that no entry of the
+    confirmed commitment matches (same source with an output, or — for entries without a source — same hash and amount
+    with an output) IS queued to fail: the payment reaches its terminal event without a restart. -/
+theorem unbroadcast_htlc_is_queued_to_fail_on_confirmation (cpCur cpPrev : List BHtlc) (fulfilled : List Nat)
+    (conf : List BHtlc) (c : BHtlc) (s : Nat) (hc : c ∈ cpCur ∨ c ∈ cpPrev) (hs : c.src = some s) (hf : s ∉ fulfilled)
+    (hn : ∀ b ∈ conf, b.outIdx = none ∨ (b.src ≠ some s ∧ ¬ (b.src = none ∧ b.hash = c.hash ∧ b.amt = c.amt))) :
+    s ∈ failUnbroadcast cpCur cpPrev fulfilled conf := by
+  refine (mem_failUnbroadcast cpCur cpPrev fulfilled conf s).mpr ⟨c, hc, (checkOne_eq_some fulfilled conf c s).mpr ⟨hs, ?_, hf⟩⟩
+  cases hany : conf.any (matchedBy s c) with
+  | false => rfl
+  | true =>
+    obtain ⟨b, hb, hm⟩ := List.any_eq_true.mp hany
+    obtain ⟨ho, hsrc⟩ := (matchedBy_iff s c b).mp hm
+    rcases hn b hb with h | ⟨h1, h2⟩
+    · simp [h] at ho
+    · rcases hsrc with h | h
+      · exact absurd h h1
+      · exact absurd h h2
+
+example : 2 ∈ failUnbroadcast fuCur fuConf [] fuConf ∧
+    (∀ b ∈ fuConf, b.outIdx = none ∨ (b.src ≠ some 2 ∧ ¬ (b.src = none ∧ b.hash = 12 ∧ b.amt = 5000))) := by decide
+
+/-- An HTLC the counterparty has already fulfilled off chain (`counterparty_fulfilled_htlcs`) is never queued to fail. -/
+theorem counterparty_fulfilled_never_queued_to_fail (cpCur cpPrev : List BHtlc) (fulfilled : List Nat)
+    (conf : List BHtlc) (s : Nat) (h : s ∈ fulfilled) : s ∉ failUnbroadcast cpCur cpPrev fulfilled conf :=
+  fun hm => (queued_to_fail_on_confirmation_is_absent_or_dust cpCur cpPrev fulfilled conf s hm).1 h
+
+example : failUnbroadcast fuCur fuConf [2] fuConf = [3, 3] := by decide
+
+/-- The two twins agree: whatever the live check queues to fail is, against the same confirmed list, also reported by
+    the restart walk (`get_onchain_failed_outbound_htlcs`) for as long as the user has not been told — a restart between
+    the confirmation and the event never loses the failure. -/
+theorem queued_by_live_check_is_reported_by_restart_walk (m : Mon) (fulfilled : List Nat) (conf : List BHtlc) (c : BHtlc)
+    (s : Nat) (h : checkOne fulfilled conf c = some s) (hr : s ∉ m.resolvedToUser) :
+    walkOne m (conf.map BHtlc.toHtlc) c.toHtlc = some s := by
+  obtain ⟨hs, hany, _⟩ := (checkOne_eq_some fulfilled conf c s).mp h
+  apply walkOne_absent_or_dust m _ c.toHtlc s hs hr
+  intro x hx hxs
+  obtain ⟨b, hb, rfl⟩ := List.mem_map.mp hx
+  cases ho : b.outIdx with
+  | none => simpa [BHtlc.toHtlc] using ho
+  | some i =>
+    have : conf.any (matchedBy s c) = true :=
+      List.any_eq_true.mpr ⟨b, hb, matchedBy_same_source s c b hxs (by simp [ho])⟩
+    rw [this] at hany
+    cases hany
+
+example : checkOne [] fuConf ⟨some 3, none, 13, 100⟩ = some 3 ∧
+    walkOne prevCpConfirmed (fuConf.map BHtlc.toHtlc) ⟨some 3, none⟩ = some 3 := by decide
+
+end Unbroadcast
 
 end Ldk.C03
